@@ -1,4 +1,4 @@
-import Gp.Lemmas.Layers.TcpRt
+import Gp.Lemmas.Layers.TcpWf
 /-
   C06 (TCP part): serialize (FixLengths + ComputeChecksums) then decode returns the same
   layer and payload; serialising the decoded layer again reproduces the bytes.
@@ -12,6 +12,20 @@ import Gp.Lemmas.Layers.TcpRt
 -/
 namespace Gp.C06.Tcp
 open Gp Gp.Tcp
+
+/-- decoded_wf: every successfully decoded TCP layer (any old layer value, bytes, capacity) is
+    `wf` — MPTCP options included. -/
+theorem decoded_wf (old : Layer) (data foreign : Bytes) (o : DecOut)
+    (h : decode Variant.fixed old data foreign = .ok o) (he : o.err = false) : wf o.layer = true :=
+  decoded_wf' old data foreign o h he
+
+/-- non-vacuity of `decoded_wf`: a successful decode leaving four options (MSS, NOP, MP_CAPABLE,
+    End-of-list) and three padding bytes -/
+example : (match decode Variant.fixed fresh
+    [0x30, 0x39, 0, 80, 0, 0, 0, 1, 0, 0, 0, 0, 0x80, 0x02, 0xff, 0xff, 0, 0, 0, 0,
+     2, 4, 5, 0xb4, 1, 0x1e, 4, 1, 0, 0, 9, 9, 0xaa] [] with
+    | .ok o => !o.err && o.layer.options.length == 4 && o.layer.padding == [9, 9] && wf o.layer
+    | _ => false) = true := by decide
 
 /-- The round-trip statement for one layer: for every reachable buffer holding the payload, if
     SerializeTo(FixLengths, ComputeChecksums) succeeds, decoding the bytes yields — without error
